@@ -4,6 +4,7 @@ import CoercionModel.Model.Walk
 import CoercionModel.Model.Attempts
 import CoercionModel.Model.Builder
 import CoercionModel.Model.Validate
+import CoercionModel.Model.Engine
 open Lean
 namespace Coercion
 
@@ -72,5 +73,20 @@ deriving instance FromJson for Validate.VChecks
 deriving instance FromJson for Validate.VSeq
 deriving instance FromJson for Validate.VBlock
 deriving instance FromJson for Validate.VPlan
+
+deriving instance FromJson for Engine.MAction
+deriving instance FromJson for Engine.MGroup
+deriving instance FromJson for Engine.MSeq
+deriving instance FromJson for Engine.MBlock
+deriving instance FromJson for Engine.MPlan
+
+instance : ToJson Engine.Ev where
+  toJson
+    | .group _ _ g ok => Json.mkObj [("k", "group"), ("idx", g), ("ok", ok)]
+    | .seq _ q ok => Json.mkObj [("k", "seq"), ("idx", q), ("ok", ok)]
+    | .blockEnd b st => Json.mkObj [("k", "blockEnd"), ("idx", b), ("status", toJson st)]
+
+instance : ToJson Engine.Obj where
+  toJson o := Json.mkObj [("idx", o.idx), ("status", toJson o.status), ("calls", o.calls)]
 
 end Coercion
